@@ -139,7 +139,8 @@ impl<'a> TransportFeedback<'a> {
         if parser::parse_count(self.data) != F::FCI_FORMAT {
             return Err(RtcpParseError::WrongImplementation);
         }
-        F::parse(&self.data[12..])
+        let padding = self.padding().unwrap_or(0) as usize;
+        F::parse(&self.data[12..self.data.len() - padding])
     }
 }
 
@@ -201,7 +202,7 @@ fn fb_write_into<T: RtcpPacket>(
 
     end += fci.write_into_unchecked(&mut buf[idx..]);
 
-    end += writer::write_padding_unchecked(padding, &mut buf[idx..]);
+    end += writer::write_padding_unchecked(padding, &mut buf[end..]);
 
     end
 }
@@ -223,7 +224,7 @@ impl<'a> RtcpPacketWriter for TransportFeedbackBuilder<'a> {
         }
         let fci_len = self.fci.calculate_size()?;
 
-        Ok(TransportFeedback::MIN_PACKET_LEN + pad_to_4bytes(fci_len))
+        Ok(TransportFeedback::MIN_PACKET_LEN + pad_to_4bytes(fci_len) + self.padding as usize)
     }
 
     /// Write this TransportFeedback packet data into `buf` without any validity checks.
@@ -335,7 +336,8 @@ impl<'a> PayloadFeedback<'a> {
         if parser::parse_count(self.data) != F::FCI_FORMAT {
             return Err(RtcpParseError::WrongImplementation);
         }
-        F::parse(&self.data[12..])
+        let padding = self.padding().unwrap_or(0) as usize;
+        F::parse(&self.data[12..self.data.len() - padding])
     }
 }
 
@@ -387,7 +389,7 @@ impl<'a> RtcpPacketWriter for PayloadFeedbackBuilder<'a> {
         }
         let fci_len = self.fci.calculate_size()?;
 
-        Ok(PayloadFeedback::MIN_PACKET_LEN + pad_to_4bytes(fci_len))
+        Ok(PayloadFeedback::MIN_PACKET_LEN + pad_to_4bytes(fci_len) + self.padding as usize)
     }
 
     /// Write this TransportFeedback packet data into `buf` without any validity checks.
